@@ -901,6 +901,28 @@ pub fn run(ctx: &mut Ctx) -> Result<(), Violation> {
         Case { root: 4, puzzle: "".into() },
         Case { root: 4, puzzle: "1.2.3.4.5.6.7.8.\n9...............".into() },
     ];
+    // roots 5 (and, thorough, 6): cell indices beyond 255 / 1023, givens in late cells
+    for root in ctx.tier.pick(vec![5usize], vec![5usize, 6]) {
+        let sq = root * root;
+        let cell = |r: usize, c: usize| (root * (r % root) + r / root + c) % sq + 1;
+        let mut full = String::new();
+        let mut late = String::new();
+        let mut sparse = String::new();
+        for r in 0..sq {
+            for c in 0..sq {
+                let d = cell(r, c);
+                let ch = if d <= 9 { char::from_digit(d as u32, 10).unwrap() } else { '.' };
+                full.push(ch);
+                late.push(if r * sq + c >= 256 { ch } else { '_' });
+                sparse.push(if (r * 7 + c * 3) % 11 == 0 { ch } else { '-' });
+            }
+            full.push('\n');
+        }
+        fixed.push(Case { root, puzzle: String::new() });
+        fixed.push(Case { root, puzzle: full });
+        fixed.push(Case { root, puzzle: late });
+        fixed.push(Case { root, puzzle: sparse });
+    }
     if let Ok(s) = std::fs::read_to_string("/repo/examples/in_progress/sudoku_puzzle.txt") {
         fixed.push(Case { root: 3, puzzle: s });
     }
